@@ -123,17 +123,8 @@ def run (fields : List String) : String × String :=
       let so := fieldsOf (ofSpec (Spec.windowSpec m wa wmid wz pre suf sa smid sz)) ++ ["1"]
       let io := impl.splitOn "|"
       if io == so then (mo, "ok") else
-      -- classify the one recorded finding (F13c): only `previous*` differ, the window starts
-      -- mid-line, and the implementation is right about byte and line but not the column
       let names := diffNames io so
-      let colOnly := ((io.zip so).all fun (a, b) =>
-        a == b || (a != "none" && a != "panic" && b != "none" &&
-          (parsePos a).byte == (parsePos b).byte && (parsePos a).line == (parsePos b).line
-          && (parsePos b).line == w.s.line))
-      let tag := if w.s.col != 0 && colOnly &&
-        (names == "previous" || names == "previous_line_end" || names == "previous,previous_line_end")
-        then "F13c-column-on-first-line-of-midline-window " else ""
-      (mo, "FAIL " ++ tag ++ names ++ " expected " ++ "|".intercalate so)
+      (mo, "FAIL " ++ names ++ " expected " ++ "|".intercalate so)
     | _, _, _ => (mo, "SKIP positions are not canonical")
   | _ => ("?", "FAIL bad case line")
 
